@@ -1,5 +1,6 @@
 import SiaProofs.Props.C08
 import SiaProofs.Props.C12
+import SiaProofs.Lemmas.LedgerC03Fnd
 /-!
 # C03 — Spends, revisions, renewals, attestations need content-binding authorisation
 
@@ -198,5 +199,226 @@ example : ∃ ms, validateV2Transaction (C08.Ex.M 10) (C08.tSpend2 C08.Ex.e0) 10
 example : validateV2Transaction (C08.Ex.M 10)
     { C08.tSpend2 C08.Ex.e0 with scIns := [{ parent := C08.Ex.e0, addrOk := true, authOk := false }] } 100 =
     .error (.reject "failed to satisfy spend policy") := by decide
+
+/-! ## the Foundation addresses only move through an authorised transaction -/
+
+/-- a v1 transaction that carries a decodable Foundation update which passed the "signed by a current
+Foundation key" check of `validateArbitraryData` -/
+def V1FoundationAuth (t : Txn1) : Prop := ∃ u, t.foundation = some (u, true)
+
+/-- a v2 transaction that names a new Foundation address and spends (with an address-matching, satisfied
+policy) an input controlled by the management address of the parent state -/
+def V2FoundationAuth (L : Ledger) (t : Txn2) : Prop :=
+  ∃ a, t.newFoundation = some a ∧ ∃ sci ∈ t.scIns, sci.parent.addr = L.fFailsafe ∧ sci.addrOk = true ∧ sci.authOk = true
+
+theorem a1Final_fnd (s : Mid) (t : Txn1) :
+    (a1Final s t).fnd = s.fnd ∨ (s.base.child ≥ s.base.P.hfFoundation + 1 ∧ ∃ x, t.foundation = some x) := by
+  unfold a1Final
+  split
+  · rename_i hc
+    split
+    · exact Or.inr ⟨hc, _, by assumption⟩
+    · exact Or.inr ⟨hc, _, by assumption⟩
+    · exact Or.inl rfl
+  · exact Or.inl rfl
+
+theorem a2Final_fnd (s : Mid) (t : Txn2) : (a2Final s t).fnd = s.fnd ∨ ∃ a, t.newFoundation = some a := by
+  unfold a2Final
+  simp only []
+  split
+  · exact Or.inr ⟨_, by assumption⟩
+  · exact Or.inl rfl
+
+theorem vb1Step_fnd {L : Ledger} {pid mw : Nat} {s s' : Mid} {t : Txn1} (hb : s.base = L) (h : vb1Step pid mw s t = .ok s') :
+    s'.fnd = s.fnd ∨ V1FoundationAuth t := by
+  unfold vb1Step at h
+  obtain ⟨_, hv, ha⟩ := bind_ok_iff.1 h
+  obtain ⟨s0, hf, hb0, rfl⟩ := applyTransaction_fnd ha
+  rcases a1Final_fnd s0 t with hk | ⟨hc, x, hx⟩
+  · exact Or.inl (by rw [hk, hf])
+  · right
+    obtain ⟨_, _, _, _, _, _, _, harb, _⟩ := (validateTransaction_ok_iff s t pid mw).1 hv
+    obtain ⟨u, signed⟩ := x
+    have := validateArbitraryData_ok harb (by rw [← hb0]; omega) u signed hx
+    subst this
+    exact ⟨u, hx⟩
+
+theorem vb2Step_fnd {L : Ledger} {mw : Nat} {s s' : Mid} {t : Txn2} (hb : s.base = L) (h : vb2Step mw s t = .ok s') :
+    s'.fnd = s.fnd ∨ V2FoundationAuth L t := by
+  unfold vb2Step at h
+  obtain ⟨_, hv, ha⟩ := bind_ok_iff.1 h
+  obtain ⟨s0, hf, _, rfl⟩ := applyV2Transaction_fnd ha
+  rcases a2Final_fnd s0 t with hk | ⟨a, hx⟩
+  · exact Or.inl (by rw [hk, hf])
+  · right
+    obtain ⟨_, _, _, _, hsc, _, _, _, hfu⟩ := (validateV2Transaction_ok_iff s t mw).1 hv
+    obtain ⟨isc, _, _⟩ := (validateV2Siacoins_ok_iff s t).1 hsc
+    obtain ⟨sci, hm, hp⟩ := validateFoundationUpdate_ok hfu a hx
+    exact ⟨a, hx, sci, hm, by rw [← hb]; exact hp, (isc sci hm).addrOk, (isc sci hm).authOk⟩
+
+/-- a fold over steps that keep `base` and either keep the Foundation addresses or are authorised -/
+theorem foldlM_fnd_base {α} {f : Mid → α → VM Mid} (L : Ledger) (P : α → Prop)
+    (hbase : ∀ s x s', f s x = .ok s' → s'.base = s.base)
+    (hstep : ∀ s x s', s.base = L → f s x = .ok s' → s'.fnd = s.fnd ∨ P x)
+    (l : List α) (s s' : Mid) (hs : s.base = L) (h : l.foldlM f s = .ok s') :
+    s'.base = L ∧ (s'.fnd = s.fnd ∨ ∃ x ∈ l, P x) := by
+  induction l generalizing s with
+  | nil => simp at h; subst h; exact ⟨hs, Or.inl rfl⟩
+  | cons a l ih =>
+    rw [List.foldlM_cons] at h
+    obtain ⟨s1, h1, h2⟩ := bind_ok_iff.1 h
+    have hs1 : s1.base = L := by rw [hbase s a s1 h1, hs]
+    obtain ⟨hb', hr⟩ := ih s1 hs1 h2
+    refine ⟨hb', ?_⟩
+    rcases hr with hk | ⟨x, hx, hp⟩
+    · rcases hstep s a s1 hs h1 with hs' | hp
+      · exact Or.inl (by rw [hk, hs'])
+      · exact Or.inr ⟨a, List.mem_cons_self, hp⟩
+    · exact Or.inr ⟨x, List.mem_cons_of_mem _ hx, hp⟩
+
+/-- **c03_foundation_update_authorised**: if validating a block moves the Foundation subsidy or
+management address away from the parent state's, then the block contains a v1 transaction whose
+Foundation update passed the signed-by-a-current-Foundation-key check, or a v2 transaction that names a
+new Foundation address and spends an authorised input controlled by the parent state's management
+address. -/
+theorem c03_foundation_update_authorised (L : Ledger) (b : Block) (pid : Id) (ms : Mid)
+    (h : validateBlock L b pid = .ok ms) (hne : (ms.fPrimary, ms.fFailsafe) ≠ (L.fPrimary, L.fFailsafe)) :
+    (∃ t ∈ b.txns1, V1FoundationAuth t) ∨ (∃ t ∈ b.txns2, V2FoundationAuth L t) := by
+  rw [validateBlock_eq] at h
+  obtain ⟨_, _, h⟩ := bind_ok_iff.1 h
+  obtain ⟨_, _, h⟩ := bind_ok_iff.1 h
+  split at h
+  · exact absurd h (reject_ne_ok _ _)
+  obtain ⟨s0, h1, h2⟩ := bind_ok_iff.1 h
+  obtain ⟨hb0, r1⟩ := foldlM_fnd_base L V1FoundationAuth
+    (fun s x s' hs => by
+      unfold vb1Step at hs
+      obtain ⟨_, _, ha⟩ := bind_ok_iff.1 hs
+      exact applyTransaction_base ha)
+    (fun s x s' hb hs => vb1Step_fnd hb hs) b.txns1 (newMid L) s0 rfl h1
+  obtain ⟨_, r2⟩ := foldlM_fnd_base L (V2FoundationAuth L)
+    (fun s x s' hs => by
+      unfold vb2Step at hs
+      obtain ⟨_, _, ha⟩ := bind_ok_iff.1 hs
+      exact applyV2Transaction_base ha)
+    (fun s x s' hb hs => vb2Step_fnd hb hs) b.txns2 s0 ms hb0 h2
+  rcases r1 with k1 | a1
+  · rcases r2 with k2 | a2
+    · exfalso
+      apply hne
+      have : ms.fnd = (newMid L).fnd := by rw [k2, k1]
+      exact this
+    · exact Or.inr a2
+  · exact Or.inl a1
+
+/-- non-vacuity: a v2 transaction that sets a new Foundation address without spending from the
+management address is rejected; with an input from it (address 7 = `fFailsafe`) it is accepted -/
+example : validateFoundationUpdate (C08.Ex.M 10) { C08.tSpend2 C08.Ex.e0 with newFoundation := some 5 } =
+    .error (.reject "transaction changes Foundation address, but does not spend an input controlled by current address") := by decide
+example : validateFoundationUpdate (newMid { C08.Ex.L 10 with fFailsafe := 7 }) { C08.tSpend2 C08.Ex.e0 with newFoundation := some 5 } = .ok () := by
+  decide
+
+/-! ## sighashes bind the covered content (id model) -/
+
+open Sia.Codec Sia.Ids in
+/-- **c03_sighash_binds**: under `HashInj`, per sighash kind, equal sighashes ⇒ equal covered content:
+* input sighash: the effect-bearing content of the transaction as far as the code binds it
+  (`stripCode`: everything in `strip` except — finding — the siafund claim addresses), among
+  transactions with the same resolution kinds (finding: the kind tag is not written);
+* contract sighash: the whole contract except its two signatures;
+* renewal sighash: the whole renewal (final outputs, rollovers, new contract) except the four signatures;
+* attestation sighash: public key, key, value.
+Every preimage also contains the purpose distinguisher and the replay prefix
+(`C12.c12_sighash_binds_era_and_purpose`). -/
+theorem c03_sighash_binds (H : List UInt8 → List UInt8) (hH : HashInj H) :
+    (∀ t t' : V2Txn, WFG codeBindsClaimAddress t → WFG codeBindsClaimAddress t' → t.kinds = t'.kinds →
+      H (inputSigPre t) = H (inputSigPre t') → stripCode codeBindsClaimAddress t = stripCode codeBindsClaimAddress t') ∧
+    (∀ fc fc' : V2FileContract, Canon Env.default Spec.v2FileContract (fcVal fc.nilSigs) →
+      Canon Env.default Spec.v2FileContract (fcVal fc'.nilSigs) →
+      H (contractSigPre fc) = H (contractSigPre fc') → fc.nilSigs = fc'.nilSigs) ∧
+    (∀ r r' : V2Renewal, Canon Env.default Spec.v2FileContractRenewal (renewalVal r.nilSigs) →
+      Canon Env.default Spec.v2FileContractRenewal (renewalVal r'.nilSigs) →
+      H (renewalSigPre r) = H (renewalSigPre r') → r.nilSigs = r'.nilSigs) ∧
+    (∀ a a' : Attestation, Canon Env.default Spec.attestation (attVal a.nilSig) →
+      Canon Env.default Spec.attestation (attVal a'.nilSig) →
+      H (attestationSigPre a) = H (attestationSigPre a') → a.nilSig = a'.nilSig) := by
+  refine ⟨?_, ?_, ?_, ?_⟩
+  · intro t t' hw hw' hk h
+    have := hH _ _ h
+    simp only [inputSigPre, inputSigPreG, List.append_assoc] at this
+    exact semEncodeG_inj _ hw hw' hk (List.append_cancel_left (List.append_cancel_left this))
+  · intro fc fc' hc hc' h
+    have := hH _ _ h
+    simp only [contractSigPre, List.append_assoc] at this
+    exact fcVal_inj (C11.c11_injective Env.default_ok _ (by decide +kernel) _ _ hc hc'
+      (List.append_cancel_left (List.append_cancel_left this)))
+  · intro r r' hc hc' h
+    have := hH _ _ h
+    simp only [renewalSigPre, List.append_assoc] at this
+    exact renewalVal_inj (C11.c11_injective Env.default_ok _ (by decide +kernel) _ _ hc hc'
+      (List.append_cancel_left (List.append_cancel_left this)))
+  · intro a a' hc hc' h
+    have := hH _ _ h
+    simp only [attestationSigPre, List.append_assoc] at this
+    exact attVal_inj (C11.c11_injective Env.default_ok _ (by decide +kernel) _ _ hc hc'
+      (List.append_cancel_left (List.append_cancel_left this)))
+
+/-- non-vacuity: the contract of the C12 witnesses is canonical; changing its revision number changes
+the covered content -/
+example : Sia.Codec.Canon Sia.Codec.Env.default Sia.Codec.Spec.v2FileContract (Sia.Ids.fcVal C12.fc0.nilSigs) ∧
+    C12.fc0.nilSigs ≠ ({ C12.fc0 with revisionNumber := 1 } : Sia.Ids.V2FileContract).nilSigs := by
+  constructor <;> decide +kernel
+
+/-! ## tampering with signed content invalidates the signature (symbolic unforgeability) -/
+
+/-- symbolic unforgeability, as far as it is needed here: one signature does not verify (under one key)
+for two different hashes.  A HYPOTHESIS on the verification function; satisfiable, e.g. by the term
+model "a signature is the pair (key, hash)". -/
+def SigBinding (verify : List UInt8 → List UInt8 → List UInt8 → Bool) : Prop :=
+  ∀ k h h' s, verify k h s = true → verify k h' s = true → h = h'
+
+example : SigBinding (fun k h s => decide (s = k ++ h)) := by
+  intro k h h' s h1 h2
+  simp only [decide_eq_true_eq] at h1 h2
+  exact List.append_cancel_left (h1.symm.trans h2)
+
+open Sia.Codec Sia.Ids in
+/-- **c03_tamper_rejected**: a signature that verifies over the sighash of `t` (resp. of a contract, a
+renewal, an attestation) does not verify over the sighash of an object whose covered content differs —
+changing any signed content after signing invalidates the signature.  (For v1 partial-coverage
+signatures the covered content is what `CoveredFields` names; not modelled.)  The input-sighash clause
+carries the two exclusions of C12: same resolution kinds; claim addresses are not covered. -/
+theorem c03_tamper_rejected (verify : List UInt8 → List UInt8 → List UInt8 → Bool) (hU : SigBinding verify)
+    (H : List UInt8 → List UInt8) (hH : HashInj H) (k s : List UInt8) :
+    (∀ t t' : V2Txn, WFG codeBindsClaimAddress t → WFG codeBindsClaimAddress t' → t.kinds = t'.kinds →
+      stripCode codeBindsClaimAddress t ≠ stripCode codeBindsClaimAddress t' →
+      verify k (H (inputSigPre t)) s = true → verify k (H (inputSigPre t')) s = false) ∧
+    (∀ fc fc' : V2FileContract, Canon Env.default Spec.v2FileContract (fcVal fc.nilSigs) →
+      Canon Env.default Spec.v2FileContract (fcVal fc'.nilSigs) → fc.nilSigs ≠ fc'.nilSigs →
+      verify k (H (contractSigPre fc)) s = true → verify k (H (contractSigPre fc')) s = false) ∧
+    (∀ r r' : V2Renewal, Canon Env.default Spec.v2FileContractRenewal (renewalVal r.nilSigs) →
+      Canon Env.default Spec.v2FileContractRenewal (renewalVal r'.nilSigs) → r.nilSigs ≠ r'.nilSigs →
+      verify k (H (renewalSigPre r)) s = true → verify k (H (renewalSigPre r')) s = false) ∧
+    (∀ a a' : Attestation, Canon Env.default Spec.attestation (attVal a.nilSig) →
+      Canon Env.default Spec.attestation (attVal a'.nilSig) → a.nilSig ≠ a'.nilSig →
+      verify k (H (attestationSigPre a)) s = true → verify k (H (attestationSigPre a')) s = false) := by
+  obtain ⟨b1, b2, b3, b4⟩ := c03_sighash_binds H hH
+  refine ⟨?_, ?_, ?_, ?_⟩
+  · intro t t' hw hw' hk hne hv
+    cases hv' : verify k (H (inputSigPre t')) s
+    · rfl
+    · exact absurd (b1 t t' hw hw' hk (hU _ _ _ _ hv hv')) hne
+  · intro fc fc' hc hc' hne hv
+    cases hv' : verify k (H (contractSigPre fc')) s
+    · rfl
+    · exact absurd (b2 fc fc' hc hc' (hU _ _ _ _ hv hv')) hne
+  · intro r r' hc hc' hne hv
+    cases hv' : verify k (H (renewalSigPre r')) s
+    · rfl
+    · exact absurd (b3 r r' hc hc' (hU _ _ _ _ hv hv')) hne
+  · intro a a' hc hc' hne hv
+    cases hv' : verify k (H (attestationSigPre a')) s
+    · rfl
+    · exact absurd (b4 a a' hc hc' (hU _ _ _ _ hv hv')) hne
 
 end C03
